@@ -14,6 +14,7 @@ fn main() {
         "c51-split" => c51::split_main(),
         "c51-print" => c51::print_main(),
         "c51-repl" => c51::repl_main(),
+        "c51-file" => c51::file_main(),
         _ => {
             eprintln!("usage: vaux <c51-split|c51-print|c51-repl|...> [options]");
             std::process::exit(2);
